@@ -170,7 +170,7 @@ func c17Judge(it c17Item) (sig, detail string) {
 		if len(obs) != 1 || !strings.HasPrefix(obs[0], "ERR ") {
 			return "wrong-arguments-accepted", fmt.Sprintf("`%s` must be a runtime error, got %v", it.S, obs)
 		}
-	case "read", "exit":
+	case "read", "exit", "read-keep":
 		return c17Binary(ensureCalcBinary(), it)
 	}
 	return "", ""
@@ -248,6 +248,35 @@ var c17StdinLines = []string{"a", "", strings.Repeat("z", 5000), "two words"}
 // c17Binary: read() and exit() through the built binary.
 func c17Binary(bin string, it c17Item) (sig, detail string) {
 	switch it.Kind {
+	case "read-keep":
+		// it.A lines of it.B characters each are read into an array first and written out afterwards: a line the
+		// program keeps must still be the line it read after any number of further reads
+		var in, want strings.Builder
+		for i := 0; i < it.A; i++ {
+			l := fmt.Sprintf("%d:", i) + strings.Repeat(string(rune('a'+i%26)), it.B)
+			in.WriteString(l + "\n")
+			want.WriteString("<" + l + "\n>") // read() hands the line over with its line break
+		}
+		prog := fmt.Sprintf("ls = []\nfor i <- fromto(0, %d) ls = ls + [read()]\nfirst = ls[0]\nfor l <- elems(ls) write(\"<\" + l + \">\")\nwrite(\"|\" + first + \"|\")\n", it.A)
+		fn := filepath.Join(c16ScratchDir(), fmt.Sprintf("readkeep-%d.calc", os.Getpid()))
+		if err := os.WriteFile(fn, []byte(prog), 0o644); err != nil {
+			return "harness:scratch-file", err.Error()
+		}
+		out, err := runCalc(bin, in.String(), fn)
+		if err != nil {
+			return binarySig(err, "read"), fmt.Sprintf("%d lines of %d characters read and kept: %v", it.A, it.B, err)
+		}
+		if strings.Contains(out, "panic:") || strings.Contains(out, "fatal error:") {
+			return "binary-abort:read", clipStr(out, 300)
+		}
+		if exp := want.String() + "|0:" + strings.Repeat("a", it.B) + "\n|"; out != exp {
+			i := 0
+			for i < len(out) && i < len(exp) && out[i] == exp[i] {
+				i++
+			}
+			return "read-line-changes-after-later-reads", fmt.Sprintf("%d lines of %d characters read into an array, then written: the output differs from the input at byte %d: got %q, the lines read were %q", it.A, it.B, i, clipStr(out[i:], 80), clipStr(exp[i:], 80))
+		}
+		return "", ""
 	case "read":
 		// it.S encodes: mode|final newline|line indices|number of reads
 		var spec struct {
@@ -364,7 +393,7 @@ func init() {
 	core.Register(&core.Check{
 		ID:    "C17",
 		Level: "exploration",
-		Rule: "toa(x) against write(x) for every value of a 57-value alphabet (all kinds, boundary ints, floats incl. ±Inf, NaN, -0, subnormal and max, strings with quotes and line breaks, arrays nested to depth 3 containing functions) bound to a global; aton(toa(n)) == n for 16 boundary ints and 210 finite floats (powers of two, decimal fractions, subnormal, max); fromto(a, b) for all a, b in -3..3 and around 2^63-1 and -2^63; elems / indices (alone and zipped) over every array and string of length 0..4, also after the program bound another built-in's name or the names a, b, i, v, e to values of its own; wrong kinds and arities for all eight built-ins; fromto / elems / indices running three and four at once (zip, nesting) after a user generator over a built-in one was abandoned and its contexts reused; through the built binary: every stdin of <= 3 lines from {\"a\", \"\", 5000 characters, \"two words\"} with and without final line break x 0..4 read() calls in -eval and file mode (in file mode also with a statement that ends in a runtime error between any two reads), and exit() with int, boundary and non-int arguments. " +
+		Rule: "toa(x) against write(x) for every value of a 57-value alphabet (all kinds, boundary ints, floats incl. ±Inf, NaN, -0, subnormal and max, strings with quotes and line breaks, arrays nested to depth 3 containing functions) bound to a global; aton(toa(n)) == n for 16 boundary ints and 210 finite floats (powers of two, decimal fractions, subnormal, max); fromto(a, b) for all a, b in -3..3 and around 2^63-1 and -2^63; elems / indices (alone and zipped) over every array and string of length 0..4, also after the program bound another built-in's name or the names a, b, i, v, e to values of its own; wrong kinds and arities for all eight built-ins; fromto / elems / indices running three and four at once (zip, nesting) after a user generator over a built-in one was abandoned and its contexts reused; through the built binary: every stdin of <= 3 lines from {\"a\", \"\", 5000 characters, \"two words\"} with and without final line break x 0..4 read() calls in -eval and file mode (in file mode also with a statement that ends in a runtime error between any two reads), 3..1500 lines of 1..5000 characters read into an array and written afterwards (a kept line never changes), and exit() with int, boundary and non-int arguments. " +
 			"Oracle: the stated contracts computed by the reference model. distinct = distinct item; non-trivial = all but the empty-input cases",
 		Assumptions:     []string{"values are injected with the exported memory.SetGlobal", "a last input line without line break counts as a line; reading past the end of input is the read error"},
 		NeedsCalcBinary: true,
@@ -501,6 +530,16 @@ func c17Run(w *core.W) {
 		return
 	}
 	w.Family("read-through-binary")
+	for _, n := range []int{3, 50, 400, 1500} {
+		for _, width := range []int{1, 20, 100, 5000} {
+			if n*width > 2000000 {
+				continue
+			}
+			if !emit(c17Item{Kind: "read-keep", A: n, B: width}) {
+				return
+			}
+		}
+	}
 	seqs := [][]int{{}}
 	for l := 1; l <= 3; l++ {
 		var rec func(cur []int)
